@@ -9,6 +9,7 @@ import RFV.Model.Spec
 import RFV.Model.Validate
 import RFV.Model.Fp
 import RFV.Model.Cache
+import RFV.Model.Decision
 
 open RFV
 
@@ -138,6 +139,15 @@ def answer (line : String) : String :=
     match n.toNat?, parseTy ty with
     | some n, some ty => fmtExcept ((builtTree planner ty n).map Recipe.text)
     | _, _ => "bad-op"
+  | ["decide", cfa, cfs, mask, ty] =>
+    match cfa.toNat?, cfs.toNat?, mask.toNat?, parseTy ty with
+    | some cfa, some cfs, some m, some ty =>
+      -- mask bits: 1 = avx, 2 = fma, 4 = avx2, 8 = sse4.1 (the check machine has all four)
+      let cpu : CpuFeatures := { avx := m % 2 = 1, fma := (m / 2) % 2 = 1, avx2 := (m / 4) % 2 = 1, sse41 := (m / 8) % 2 = 1 }
+      let cf : CargoFeatures := { avx := cfa = 1, sse := cfs = 1 }
+      let f := fun (b : Bool) => if b then "ok" else "err"
+      s!"avx={f (avxPlannerNew cf cpu ty)} sse={f (ssePlannerNew cf cpu ty)} choice={(choosePlanner cf cpu ty).text}"
+    | _, _, _, _ => "bad-op"
   | ["helper", kind, a, b, c, d, e] =>
     match a.toNat?, b.toNat?, c.toNat?, d.toNat?, e.toNat? with
     | some a, some b, some c, some d, some e =>
